@@ -15,6 +15,7 @@ package app
 //@ let ran0 = RanLen
 //@ let in = s.ApplicationRunners
 //@ ensures [all-invoked] implies(result == nil, RanLen == ran0 + n)
+//@ ensures [runners-cleared-after-success] implies(result == nil, len(s.ApplicationRunners) == 0)
 //@ ensures [each-from-the-list] forall(k, int, implies(ran0 <= k && k < RanLen, 0 <= RanSrc[k] && RanSrc[k] < n && RanAt[k] == oldat(in, RanSrc[k])), RanAt[k])
 //@ ensures [exactly-once] forall(a, int, forall(b, int, implies(ran0 <= a && a < b && b < RanLen, RanSrc[a] != RanSrc[b]), RanSrc[b]), RanSrc[a])
 //@ ensures [classes-in-order] forall(a, int, forall(b, int, implies(ran0 <= a && a < b && b < RanLen, Cls(RanAt[a]) <= Cls(RanAt[b])), RanAt[b]), RanAt[a])
